@@ -90,10 +90,7 @@ theorem historyE_same_step (g : Bool) (D : Down) (hD : D.Sorted) (splitMs : Int)
   | [], _, _, _ => rfl
   | s :: rs, c, hc, hr => by
     obtain ⟨h1, h2, h3⟩ := hr s (by simp)
-    have hc0 : GoodCache D st (if s.flush then [] else c) := by
-      cases s.flush
-      · simpa using hc
-      · intro kv hkv; simp at hkv
+    have hc0 : GoodCache D st (evict s.lose c) := fun kv hkv => hc kv (List.mem_filter.mp hkv).1
     obtain ⟨c', hf, hc'⟩ := C42_step g s.env D hD splitMs hsp _ s.req (h1 ▸ hst) h2 h3 (h1 ▸ hc0)
     unfold historyE
     simp only
@@ -158,10 +155,11 @@ theorem C42_history_env (D : Down) (hD : D.Sorted) (splitMs : Int) (hsp : 0 < sp
       steps.map fun s => some (evalD D (s.req.start / s.req.step * s.req.step) (s.req.stop / s.req.step * s.req.step) s.req.step) :=
   historyE_spec D hD splitMs hsp steps [] (goodCacheM_nil D) hr
 
--- non-vacuity: a request inside the fresh zone, an uncacheable response and a flush in one history
-example : ∀ s ∈ [(⟨⟨1000000, fun _ => false⟩, false, ⟨600000, 1200000, 60000⟩⟩ : Step),
-      ⟨⟨1000000, fun r => r.start ≤ 660000 && 660000 ≤ r.stop⟩, true, ⟨0, 900000, 60000⟩⟩,
-      ⟨⟨1100000, fun _ => false⟩, false, ⟨1080000, 1200000, 60000⟩⟩],
+-- non-vacuity: a request inside the fresh zone, an uncacheable response with a flush, and the loss of
+-- single keys in one history
+example : ∀ s ∈ [(⟨⟨1000000, fun _ => false⟩, fun _ => false, ⟨600000, 1200000, 60000⟩⟩ : Step),
+      ⟨⟨1000000, fun r => r.start ≤ 660000 && 660000 ≤ r.stop⟩, fun _ => true, ⟨0, 900000, 60000⟩⟩,
+      ⟨⟨1100000, fun _ => false⟩, fun k => k.idx % 2 == 0, ⟨1080000, 1200000, 60000⟩⟩],
     0 < s.req.step ∧ 0 ≤ s.req.start ∧ s.req.start ≤ s.req.stop := by
   intro s hs; simp at hs; rcases hs with rfl | rfl | rfl <;> decide
 
